@@ -742,6 +742,9 @@ def run(ctx, res):
     check_bits(res, facts)
     check_glvdecomp(res, facts)
     check_fixedbase(res, facts)
+    # the affine GLV hook (endomorphism_affine) feeds glv_mul_affine: phi(O) must be O (shared with C12's fast subgroup tests)
+    from rules import c12
+    c12.check_endoinf(res, facts)
     return {
         "level": "other",
         "explanation": "Loop-recurrence typing and dataflow rules over the MIR of ark-ec / ark-ff scalar multiplication and exponentiation loops and of every curve crate's overrides of the raw-limb entry points; GLV constants and lattice bases are decided exhaustively under C16. Does NOT decide equality of any path's result with k*P, correctness of wNAF digits (C15); the fixed-base table layout and window arithmetic are decided structurally (R-FIXEDBASE), not as a run-time equality.",
